@@ -128,7 +128,16 @@ pub fn check_c04(case: &Case, st: &mut Stats) -> Result<(), Violation> {
     let sig = "C04:lrgb_to_xyb".to_string();
     let fail = |msg: String, p: &[[f32; 3]], w: usize, h: usize| Violation { signature: sig.clone(), message: msg, case: case.json_with("C04", p, w, h) };
     let res = catch(|| {
-        let l = LinearRgb::new(px.clone(), case.w, case.h).map_err(|e| format!("{e:?}"))?;
+        // the LinearRgb object is either fresh or the result of an earlier Hsl -> LinearRgb conversion that was
+        // then painted over through data_mut(): only the pixel data may matter
+        let paint = px.len() > 1 && (px[0][2].to_bits() ^ px[px.len() - 1][1].to_bits()) % 3 == 0;
+        let l = if paint {
+            let mut l = LinearRgb::from(yuvxyb::Hsl::new(vec![[120.0f32, 0.5, 0.5]; px.len()], case.w, case.h).map_err(|e| format!("{e:?}"))?);
+            l.data_mut().copy_from_slice(&px);
+            l
+        } else {
+            LinearRgb::new(px.clone(), case.w, case.h).map_err(|e| format!("{e:?}"))?
+        };
         Ok::<_, String>(Xyb::from(l))
     });
     let xyb = match res {
